@@ -26,7 +26,7 @@ PROGRAMS = {'core': dict(crate='vaporetto', features=BASE, no_default=True)}
 for _k, _fs in CONFIGS.items():
     PROGRAMS[_k] = dict(crate='vaporetto', features=_fs, no_default=True)
 UNIT_CAP = 150
-BUDGET_S = {'quick': 280, 'thorough': 2400}
+BUDGET_S = {'quick': 600, 'thorough': 1200}      # wall-clock safety caps (exceeding one is reported as inconclusive); typical quick runs take 1-200 s
 
 DEEP = {'no-cache-type-score': ('t2-cache', 't2-nested'), 'no-fix-weight-length': ('c4-fixed8', 'c5-var'), 'bytewise-pma': ('c2-suffix',),
         'portable-simd': ('c4-fixed8',), 'no-std': ('c2-suffix',), 'minimal': ('c4-fixed8', 't2-nested'), 'no-tag-prediction': ('c2-suffix',)}
